@@ -242,6 +242,32 @@ def c17_run(ctx):
                             problems.append((f"count_nonzero-boundary:{bname}", f"count_nonzero on {fl}:{sig} rows {brow} gives {cn}, want {dim} (each unit vector is non-zero)"))
                     except Exception as e:  # noqa: BLE001
                         problems.append((f"count_nonzero-raises:{bname}", f"{fl}:{sig}: {type(e).__name__}: {str(e)[:80]}"))
+            # count_nonzero = number of elements whose CARTESIAN components (read through the same backend) are not all zero, on rows that
+            # include on-axis elements of theta / eta storage (rho = 0 with a non-zero stored angle: x = y = z = 0) and pure-z / pure-t elements
+            lonv = {"z": 1.5, "theta": 0.7, "eta": 2.5}
+            brow2 = []
+            for kind in ("generic", "on-axis", "origin", "generic2"):
+                row = list(rows[0]) if kind.startswith("generic") else [0.0, 0.3 if sig[0] == "rhophi" else 0.0]
+                if kind == "generic2":
+                    row = list(rows[1])
+                if not kind.startswith("generic"):
+                    if dim >= 3:
+                        row.append(lonv[sig[1]] if kind == "on-axis" else (0.0 if sig[1] == "z" else lonv[sig[1]]))
+                    if dim == 4:
+                        row.append(0.0)
+                brow2.append(row)
+            for bname, mk in (("np", C.np_array), ("ak", C.ak_array)):
+                n += 1
+                try:
+                    arr = mk(fl, sig, brow2)
+                    comps = [numpy.asarray(ak.to_numpy(getattr(arr, c_)) if bname == "ak" else getattr(arr, c_), dtype=float) for c_ in comp]
+                    want_cn = int(sum(1 for i in range(len(brow2)) if any(cc[i] != 0 and not numpy.isnan(cc[i]) for cc in comps)))
+                    got_cn = int(numpy.count_nonzero(arr)) if bname == "np" else int(ak.count_nonzero(ak.unflatten(arr, [len(brow2)]), axis=-1)[0])
+                    if got_cn != want_cn:
+                        problems.append((f"count_nonzero-cartesian:{bname}", f"count_nonzero on {fl}:{sig} rows {brow2} gives {got_cn}; {want_cn} elements have a non-zero Cartesian component "
+                                         f"({[cc.tolist() for cc in comps]})"))
+                except Exception as e:  # noqa: BLE001
+                    problems.append((f"count_nonzero-raises:{bname}", f"{fl}:{sig} rows {brow2}: {type(e).__name__}: {str(e)[:80]}"))
             # ---- Awkward jagged with an empty list
             counts = [2, 0, 3, 1]
             aj = ak.unflatten(C.ak_array(fl, sig, rows), counts)
